@@ -8,6 +8,9 @@
 #include "tracked.h"
 #include <igris/container/flat_map.h>
 #include <igris/container/flat_set.h>
+#include <algorithm>
+#include <functional>
+#include <cstring>
 #include <map>
 #include <set>
 #include <string>
@@ -330,6 +333,37 @@ template <class K, class V> struct MapHist
             return ctor_il(keys, std::make_index_sequence<4>());
         }
     }
+    // long lists of any run-time length: the std::initializer_list object is assembled from an array
+    // (libstdc++ layout {const T *begin; size_t size}; checked below before it is used)
+    void ctor_il_rt(const int *keys, int L)
+    {
+        begin_op("ctor(initializer_list)", L, 0);
+        delete fm;
+        fm = nullptr;
+        m.clear();
+        {
+            std::vector<VT> arr;
+            arr.reserve((size_t)L);
+            for (int i = 0; i < L; i++)
+            {
+                int id = next++;
+                arr.push_back(VT(Key<K>::make(keys[i]), Val<V>::make(id)));
+                m.insert({Key<K>::make(keys[i]), id}); // std::map keeps the first entry of a key
+            }
+            struct Raw
+            {
+                const VT *p;
+                size_t n;
+            } raw{arr.data(), (size_t)L};
+            std::initializer_list<VT> il;
+            static_assert(sizeof(Raw) == sizeof il, "unexpected std::initializer_list layout");
+            memcpy((void *)&il, &raw, sizeof il);
+            if (il.size() != (size_t)L || (L && il.begin() != arr.data()))
+                vf::fail("harness:initializer_list-layout", "cannot assemble a std::initializer_list of %d entries", L);
+            fm = new FM(il);
+        }
+        verify(*fm, m.size());
+    }
     void finish()
     {
         g_op = "destructor";
@@ -440,6 +474,46 @@ static void map_il_run(uint64_t idx)
         map_il_t<int, std::string>(fk);
 }
 VF_SUITE(map_initlist, map_il_count, map_il_run)
+
+// (b') long initializer lists (0..64 entries, every length) over 2..6 keys: many occurrences per key, a distinct
+//      value per occurrence, so that "the first entry of a key is kept" is visible in at()/find()/operator[]
+static uint64_t map_il_long_count() { return 3ull * 65 * (vf::thorough() ? 100 : 6); }
+template <class K, class V> static void map_il_long_t(uint64_t idx, int L)
+{
+    vf::Rng r(vf::seed(), 0x11FE, idx);
+    int U = r.range(2, 6);
+    int keys[64];
+    for (int &k : keys)
+        k = (int)r.below(U);
+    // sorted / reversed / random key orders all occur
+    int order = r.below(4);
+    if (order == 1)
+        std::sort(keys, keys + L);
+    else if (order == 2)
+        std::sort(keys, keys + L, std::greater<int>());
+    MapHist<K, V> h;
+    h.start(U);
+    h.ctor_il_rt(keys, L);
+    VF_OK("flat_map built from a long initializer list (up to 64 entries, repeated keys, distinct values) == std::map");
+    h.apply(M_INDEX_READ, (int)r.below(U));
+    h.apply(M_INSERT, (int)r.below(U));
+    h.apply(M_AT_WRITE, (int)r.below(U));
+    h.finish();
+    vf::count_case(vf::mix(vf::hash_bytes(keys, sizeof(int) * L, L), idx % 3), L > 0);
+    if (vf::want_sample() && L == 24 && order == 0)
+        vf::sample("flat_map long initializer list: %s, %d entries over %d keys", MapHist<K, V>::flav().c_str(), L, U);
+}
+static void map_il_long_run(uint64_t idx)
+{
+    int type = idx % 3, L = (idx / 3) % 65;
+    if (type == 0)
+        map_il_long_t<int, int>(idx, L);
+    else if (type == 1)
+        map_il_long_t<std::string, Tracked>(idx, L);
+    else
+        map_il_long_t<int, std::string>(idx, L);
+}
+VF_SUITE(map_initlist_long, map_il_long_count, map_il_long_run)
 
 // (c) random histories over 6 keys
 static uint64_t map_rand_count() { return vf::thorough() ? 150000 : 1500; }
@@ -652,7 +726,9 @@ extern "C" void vf_setup()
                           "flat_map count(k) == std::map for every key of the universe", "flat_map at(k) throws iff absent, else == std::map",
                           "flat_map live values == entries of the model", "flat_map insert keeps an existing entry, returns the element",
                           "flat_map emplace reports inserted like std::map", "flat_map operator[] inserts a default / returns the mapped value",
-                          "flat_map built from an initializer list (duplicate keys included) == std::map", "flat_set size() == std::set",
+                          "flat_map built from an initializer list (duplicate keys included) == std::map",
+                          "flat_map built from a long initializer list (up to 64 entries, repeated keys, distinct values) == std::map",
+                          "flat_set size() == std::set",
                           "flat_set count(k) == std::set for every key of the universe"})
         vf::require(c);
 }
